@@ -599,6 +599,13 @@ func (obj *Package) Undefine(name string) {
 	obj.mu.Lock()
 	if fi := obj.funcs[name]; fi != nil {
 		delete(obj.funcs, name)
+		if lam := obj.lambdas[name]; lam != nil && fi.Pkg == obj {
+			// Calls compiled while the function was defined refer to
+			// the Lambda. Make it a placeholder again so those calls
+			// fail as an undefined function like any other call and
+			// are reached by a later defun.
+			lam.makeUndefined(name)
+		}
 		obj.inheritFunc(name)
 		for _, u := range obj.Users {
 			u.mu.Lock()
